@@ -8,6 +8,10 @@ CLAIMED = {
          "ex-level glue (:w ranges, :e) is tied under C03/C06."),
  "C04": ("Lean 4 theorem refines_zipper (Props/C04.lean, Lemmas/Hist*.lean): for every history of commands, undo and redo of any length the model of lbuf.c never traps and equals a zipper of whole texts, with the corollaries of the property (exact undo/redo, redo branch discarded, ends fail unchanged, compound command = one step). Tied by exhaustive operation sequences and long random histories at the lbuf API (text, return codes, marks, history cursor).",
          "That each editor command bumps the sequence counter exactly once is tied at the ex/vi level (C02, C15, C20)."),
+ "C10": ("Lean 4 theorems (Props/C10.lean, Lemmas/C10*.lean) over the model of regex.c: vm_sound / regcomp_sound / regexec_sound (every reported match and its group marks are a genuine parse of the pattern, in the declarative semantics Matches, with atoms judged on the whole subject), leftmost_vm(_strong) (no earlier start position has a successful run), groups_nested (group marks are the entry/exit of the last occurrence, inner marks inside), and loop_eq_bt (the VM on the emitted code equals a continuation-passing backtracker on the tree, depth accounting included). Tied by every pattern <= 3/4 symbols over the metacharacter alphabet x small lines, random ERE patterns, all classes x all bytes, pattern sets; the instruction dump of every compiled program is compared with the model's emit.",
+         "Completeness and priority (no match missed, first parse) are judged on every uncut run by the ordered reference semantics in the driver (Spec/RegexSem.lean) but are not yet theorems; the hook counter in regex.c tells which runs the depth limit cut."),
+ "C11": ("Lean 4 theorems (Props/C11.lean, Lemmas/C11*.lean): parse_bounds (every compiled tree has 0 <= mn <= NREPS, mx <= NREPS, mx < 0 or mn <= mx), emit_length, emitLen_le_count and program_fits (for every byte string the compiled program fits the allocation), jmpend_bounded, emit_wf / regcomp_wf / no_edge_trap (the VM is total by well-founded recursion and never takes a checked edge on compiled programs), atomMatch_range / offsets_in_range / regcomp_offsets (0 <= so <= eo <= length, marks in range) for every subject, flags included. Tied by all metacharacter strings <= 3/4 symbols, malformed constructs and random byte strings under ASan.",
+         "offsets_on_boundaries (valid UTF-8) is judged on every case by the driver, not a theorem; recorded finding: a non-UTF-8 literal on the fast path. Reads past the terminator are modelled as trap and compared with ASan."),
  "C16": ("Lean 4 theorems (Props/C16.lean) over the model of uc.c for all code points and all strings: len/code/put agree with the arithmetic encoder, slen/chr/off/next/prev/sub/chop agree with code-point segmentation and round-trip. Model tied to uc.c (and regex.c's private copies) by an exhaustive run over all 1,114,111 code points plus exhaustive small strings.",
          "The clause 'edits keep text valid UTF-8' is carried by C08/C14."),
  "C17": ("Lean 4 theorems (Props/C17.lean): bisection equals membership on the regenerated sorted tables (width class of every code point), ren_cwid equals the reference cell width and is >= 1, the fast and the reordered layout are gap-free tilings for every permutation, offset->column->offset round-trips. Tied to ren.c/uc.c by all code points (exhaustive) and generated lines over all offsets/columns/options.",
